@@ -23,3 +23,9 @@ def run(ctx, test="^TestVerifC05$", name="C05", files=None):
         if r.get("fail"):
             ctx.fail(r["fail"].split("/")[0], "monitor '%s' failed: %s" % (r["fail"], str(r.get("info"))[:500]), case=r)
     ctx.model("Run.RunSession", recs, shard=6)
+    if name == "C05":
+        # responses are routed through the registration of the session: a live session which loses its registration (to the
+        # teardown of an older session of its key, to an update) gets no answers although it is up - the registry histories
+        # of C11 (every admitted session is probed with a request which must be answered) are replayed here as well
+        import props.C11 as c11
+        c11.run(ctx, name="C05-registry")
